@@ -10,7 +10,11 @@
                                         plan.abort()), and
      DefaultOptimizerStep._run_nested_plan / EnsembleOptimizer._optimizer_callback
                                        (the nested plan runs before the outer START_EVALUATION of
-                                        every outer request; nested plan aborted -> outer aborts).
+                                        every outer request; nested plan aborted -> outer aborts;
+                                        nesting to any depth), and
+     OptimizerContext.add_observer / call_observers
+                                       (observers are registered per event type; BasicOptimizer's
+                                        abort callback is an observer of START_EVALUATION only).
 
    Every delivery of an event to a handler or observer, and every call of the evaluator, is one
    entry of a global log.  The abort index k makes the recipient of entry number k raise
@@ -27,8 +31,9 @@ Inductive entry :=
   | Call.                                         (* the user's evaluator is called *)
 
 (* plans from the outermost (index 0) to the innermost, each with its handlers in registration
-   order; the observers registered with the shared OptimizerContext *)
-Record world := { plans : list (list nat); obsv : list nat }.
+   order; the observers registered with the shared OptimizerContext for each event type, in
+   registration order (OptimizerContext._subscribers) *)
+Record world := { plans : list (list nat); obsv : evt -> list nat }.
 
 (* Plan.emit_event on the plan whose ancestor path (itself first) is [path] *)
 Fixpoint recipients_up (path : list (list nat)) (obs : list nat) : list nat :=
@@ -37,10 +42,11 @@ Fixpoint recipients_up (path : list (list nat)) (obs : list nat) : list nat :=
   | hs :: parents => hs ++ recipients_up parents obs  (* own handlers, then parent.emit_event *)
   end.
 Definition path_of (w : world) (lvl : nat) : list (list nat) := rev (firstn (S lvl) (plans w)).
-Definition recipients (w : world) (lvl : nat) : list nat := recipients_up (path_of w lvl) (obsv w).
+Definition recipients (w : world) (lvl : nat) (e : evt) : list nat := recipients_up (path_of w lvl) (obsv w e).
 
-(* step ids: top-level steps are numbered 0, 1, ...; the step of the nested plan is 100 *)
-Definition level_of (sid : nat) : nat := if 100 <=? sid then 1 else 0.
+(* step ids: top-level steps are numbered 0, 1, ... (< 100); the step of the plan nested at depth d is 100 * d *)
+Definition level_of (sid : nat) : nat := sid / 100.
+Global Arguments level_of : simpl never.
 
 Inductive stepkind := SKOpt | SKEval.
 Definition start_of (sk : stepkind) : evt := match sk with SKOpt => StartOpt | SKEval => StartEvalStep end.
@@ -76,7 +82,7 @@ Fixpoint exec (w : world) (p : prog) (k : option nat) (log : list entry)
   match p with
   | PSkip => (log, false, [])
   | PEmit sid e =>
-      let (l, r) := deliver k (recipients w (level_of sid)) sid e log in (l, r, [])
+      let (l, r) := deliver k (recipients w (level_of sid) e) sid e log in (l, r, [])
   | PCall => (log ++ [Call], hit k (length log), [])
   | PSeq p q =>
       let '(l1, r1, x1) := exec w p k log in
@@ -85,11 +91,11 @@ Fixpoint exec (w : world) (p : prog) (k : option nat) (log : list entry)
   | PStep sid sk ex body =>
       let rc := recipients w (level_of sid) in
       (* try: START event; body   except OptimizationAborted: exit_code = USER_ABORT *)
-      let (l0, r0) := deliver k rc sid (start_of sk) log in
+      let (l0, r0) := deliver k (rc (start_of sk)) sid (start_of sk) log in
       let '(l1, r1, x1) := if r0 then (l0, true, []) else exec w body k l0 in
       let ex1 := if r1 then UserAbort else ex in
       (* FINISHED event is always emitted and may abort as well *)
-      let (l2, r2) := deliver k rc sid (fin_of sk) l1 in
+      let (l2, r2) := deliver k (rc (fin_of sk)) sid (fin_of sk) l1 in
       let ex2 := if r2 then UserAbort else ex1 in
       (* USER_ABORT: plan.abort(); the caller (next run_step / the outer optimizer) sees the flag *)
       (l2, is_abort ex2, x1 ++ [(sid, ex2)])
@@ -141,7 +147,7 @@ Fixpoint scan (l : list entry) (st : list (nat * evt)) : list (nat * evt) :=
 
 (* the FINISHED event of every open step, innermost first, each to its full recipient list *)
 Definition closure (w : world) (st : list (nat * evt)) : list entry :=
-  flat_map (fun sf => map (fun r => Deliv r (fst sf) (snd sf)) (recipients w (level_of (fst sf)))) st.
+  flat_map (fun sf => map (fun r => Deliv r (fst sf) (snd sf)) (recipients w (level_of (fst sf)) (snd sf))) st.
 
 (* the aborted log predicted from the unaborted log D *)
 Definition predict (w : world) (D : list entry) (k : option nat) : list entry :=
@@ -153,83 +159,78 @@ Definition predict (w : world) (D : list entry) (k : option nat) : list entry :=
 (* ---- compiling steps from the exit-code machine ---------------------------------- *)
 Inductive stepspec :=
   | SEval (c : cfg) (script : list req)
-  | SOpt (c : cfg) (script : list req) (inner : option (cfg * list (list req))).
+  | SOpt (t : nscript).              (* optimizer step, with its nested optimizations (Step.leaf: none) *)
 
-(* evaluation events of a step -> program: every START_EVALUATION is followed by the evaluator call *)
-Fixpoint items (sid : nat) (evs : list evt) : prog :=
-  match evs with
-  | [] => PSkip
-  | StartEval :: t => PSeq (PEmit sid StartEval) (PSeq PCall (items sid t))
-  | e :: t => PSeq (PEmit sid e) (items sid t)
+Fixpoint pseq (l : list prog) : prog :=
+  match l with [] => PSkip | p :: t => PSeq p (pseq t) end.
+Definition sequence (f : tr -> option prog) :=
+  fix go (l : list tr) : option (list prog) :=
+    match l with
+    | [] => Some []
+    | x :: t => match f x, go t with Some p, Some ps => Some (p :: ps) | _, _ => None end
+    end.
+
+Definition nested_sid (lvl : nat) : nat := 100 * S lvl.
+
+(* trace of a step at nesting level lvl -> program: every START_EVALUATION is followed by the evaluator call;
+   every nested run is a complete run_step of the nested plan's step *)
+Fixpoint tprog (lvl sid : nat) (x : tr) {struct x} : option prog :=
+  match x with
+  | TE StartEval => Some (PSeq (PEmit sid StartEval) PCall)
+  | TE e => Some (PEmit sid e)
+  | TInner Raise _ => None
+  | TInner (Exit ex) sub =>
+      option_map (fun ps => PStep (nested_sid lvl) SKOpt ex (pseq ps))
+                 (sequence (tprog (S lvl) (nested_sid lvl)) sub)
   end.
+Definition tbody (lvl sid : nat) (l : list tr) : option prog := option_map pseq (sequence (tprog lvl sid) l).
 
 Definition is_eval_evt (e : evt) : bool := match e with StartEval | FinEval => true | _ => false end.
-Definition inner_sid : nat := 100.
 
-(* trace of an outer step with a nested optimization: every nested run is a complete run_step of the
-   inner plan's step, placed before the START_EVALUATION of its outer request *)
-Fixpoint titems (sid : nat) (t : list tr) : option prog :=
-  match t with
-  | [] => Some PSkip
-  | TE StartEval :: t' => option_map (fun q => PSeq (PEmit sid StartEval) (PSeq PCall q)) (titems sid t')
-  | TE e :: t' => option_map (PSeq (PEmit sid e)) (titems sid t')
-  | TInner (Exit ex) evs :: t' => option_map (PSeq (PStep inner_sid SKOpt ex (items inner_sid evs))) (titems sid t')
-  | TInner Raise _ :: _ => None
-  end.
-
-(* has = the nested plan's tracker already holds a result (it survives from step to step) *)
-Definition compile_step (sid : nat) (s : stepspec) (has : bool) : option (prog * bool) :=
+(* hs = the trackers of the nested plans (nearest first) already hold a result (they survive from step to step) *)
+Definition compile_step (sid : nat) (s : stepspec) (hs : list bool) : option (prog * list bool) :=
   match s with
   | SEval c script =>
       match script with
       | r :: _ =>
           match run_evaluator_step c r with
-          | (Exit ex, _, evs) => Some (PStep sid SKEval ex (items sid (filter is_eval_evt evs)), has)
+          | (Exit ex, _, evs) =>
+              option_map (fun b => (PStep sid SKEval ex b, hs)) (tbody 0 sid (map TE (filter is_eval_evt evs)))
           | (Raise, _, _) => None
           end
       | [] => None
       end
-  | SOpt c script None =>
-      match run c script 0 None with
-      | (Exit ex, _, evs, _) => Some (PStep sid SKOpt ex (items sid evs), has)
-      | (Raise, _, _, _) => None
-      end
-  | SOpt c script (Some (ic, scripts)) =>
-      if negb (length scripts =? length script) then None else     (* one nested script per outer request *)
-      match run_nested c ic (combine script scripts) 0 None has with
-      | (Exit ex, _, t, (_, has')) =>
-          match titems sid t with
-          | Some body => Some (PStep sid SKOpt ex body, has')
-          | None => None
-          end
+  | SOpt t =>
+      match run_tree t hs with
+      | (Exit ex, _, l, (hs', _)) => option_map (fun b => (PStep sid SKOpt ex b, hs')) (tbody 0 sid l)
       | (Raise, _, _, _) => None
       end
   end.
 
-Fixpoint compile_steps (i : nat) (l : list stepspec) (has : bool) : option (list prog) :=
+(* the steps come with their ids: a step object that is run again keeps its id *)
+Fixpoint compile_steps (l : list (nat * stepspec)) (hs : list bool) : option (list prog) :=
   match l with
   | [] => Some []
-  | s :: t =>
-      match compile_step i s has with
-      | Some (p, has') =>
-          match compile_steps (S i) t has' with Some ps => Some (p :: ps) | None => None end
+  | (sid, s) :: t =>
+      match compile_step sid s hs with
+      | Some (p, hs') =>
+          match compile_steps t hs' with Some ps => Some (p :: ps) | None => None end
       | None => None
       end
   end.
 
 (* ---- specification of the run in which nobody aborts ------------------------------ *)
 Definition block (rc : list nat) (sid : nat) (e : evt) : list entry := map (fun r => Deliv r sid e) rc.
+Definition eblock (w : world) (sid : nat) (e : evt) : list entry := block (recipients w (level_of sid) e) sid e.
 
 (* the unaborted delivery log of a program: every event is delivered once to its full recipient list *)
 Fixpoint trace (w : world) (p : prog) : list entry :=
   match p with
   | PSkip => []
-  | PEmit sid e => block (recipients w (level_of sid)) sid e
+  | PEmit sid e => eblock w sid e
   | PCall => [Call]
   | PSeq p q => trace w p ++ trace w q
-  | PStep sid sk _ body =>
-      block (recipients w (level_of sid)) sid (start_of sk) ++ trace w body ++
-      block (recipients w (level_of sid)) sid (fin_of sk)
+  | PStep sid sk _ body => eblock w sid (start_of sk) ++ trace w body ++ eblock w sid (fin_of sk)
   end.
 (* exit codes of the run_step calls of the unaborted run, in completion order *)
 Fixpoint rets (p : prog) : list (nat * code) :=
@@ -247,7 +248,7 @@ Fixpoint arets (w : world) (p : prog) (j : nat) : list (nat * code) :=
   | PSeq p q =>
       if j <? length (trace w p) then arets w p j else rets p ++ arets w q (j - length (trace w p))
   | PStep sid sk _ body =>
-      let nb := length (recipients w (level_of sid)) in
+      let nb := length (recipients w (level_of sid) (start_of sk)) in
       (if j <? nb then []
        else if j <? nb + length (trace w body) then arets w body (j - nb)
        else rets body) ++ [(sid, UserAbort)]
